@@ -9,6 +9,8 @@ Suites
                       grammar values
   DTD-CHECK-numcss    number / length / CSS-spec references and localizations over a token space
   DTD-CHECK-wild      token soup values and reference files with junk (correspondence only)
+  DTD-CHECK-empty     empty localized values whose declaration expat rejects on a later line (a key that
+                      is a Name for parser/dtd.py but not for expat): an error at (0, 0), never an exception
   DTD-CHECK-android   extra_tests={"android-dtd"}: quoting alphabet
   DTD-documents       the four synthetic documents
   XML                 Model/XmlContent.v (xml_doc) against real xml.sax on the documents the checker
@@ -196,10 +198,10 @@ def run_check(checker, ref_ent, l10n_ent, android):
             raw.extend(checker.check(ref_ent, l10n_ent))
             res = [0, [canon_issues(raw), cache_of(checker)]]
         except Exception as e:  # noqa
-            code = common.TAGS.get(type(e).__name__)
-            if code is None:
-                raise
-            res, raw = [1, code], None
+            res, raw = [1, common.TAGS.get(type(e).__name__, 99), type(e).__name__], None
+    raised = None
+    if raw is None:
+        raised, res = res[2], res[:2]
     table = [[canon(d), [] if err is None else [[err[0], err[1], canon(err[2])]], canon(t)]
              for d, err, t in rec.log]
     ut = []
@@ -207,6 +209,7 @@ def run_check(checker, ref_ent, l10n_ent, android):
         text = checker.texthandler.textcontent
         ut = [[canon(text), uesc_answer(checker, text)]]
     payload = [cache_in, reference, int(android), ent_sx(ref_ent), ent_sx(l10n_ent), table, ut]
+    run_check.raised = raised
     return res, raw, payload, rec.log
 
 
@@ -481,6 +484,9 @@ class Batch:
         self.n += 1
         self.last = (desc, res)
         self.chk.evaluations += 1
+        if raw is None:
+            self.chk.fail("check-raises:" + str(run_check.raised), desc,
+                          "an exception escaped DTDChecker.check()")
         if raw:
             self.chk.distinct.add((self.suite, json.dumps(desc, sort_keys=True, default=str)))
         for d, err, _ in log:
@@ -805,7 +811,7 @@ def run(chk, runner_ok):
             "<!--", "-->", "<![CDATA[", "?>", "<?pi ", "12", "em", "width:1px", ";", "\\", "\\u00", "x",
             "&k0;", "&Ͱ;", "#", "=", "\U0001F600"]
     corpus = [
-        ('<!ENTITY foo "">', '<!ENTITY\nͰ "">', None),        # IndexError: lines[-1] of []
+        ('<!ENTITY foo "">', '<!ENTITY\nͰ "">', None),        # was IndexError (lines[-1] of []); now (0, 0)
         ('<!ENTITY foo "">', '<!ENTITY\nͰ "x">', None),       # negative column
         ('<!ENTITY foo "a">', '<!-- c\n -->\n<!ENTITY foo "<b>x\n\n y %">', None),
         ('<!ENTITY foo "&foo;">', '<!ENTITY foo "&foo;">', None),
@@ -848,6 +854,51 @@ def run(chk, runner_ok):
     b.finish()
     all_docs.update(b.docs)
     all_values += b.values
+
+    # ---- DTD-CHECK-empty: empty localized values whose documents expat rejects -----------------------
+    # The key (or a name a reference value uses) is a Name for parser/dtd.py but not for expat, and
+    # sits on a later line of the declaration (line feed after <!ENTITY, multi-line pre-comment), so
+    # the error is reported past the (empty) value.  Expected: no exception; exactly one xmlparse
+    # error, at (0, 0).
+    b = Batch(chk, "DTD-CHECK-empty", model)
+    from compare_locales.parser import DTDParser
+    cands = [c for c in map(chr, list(range(0x370, 0x380)) + [0x200C, 0x2070, 0x2C00, 0x3001, 0xF900, 0xFDF0,
+                                                           0xFFFD, 0x1FFF, 0x218F, 0x2FEF])
+             if re.match("[" + DTDParser.NameStartChar + "]$", c) and real_sax('<!DOCTYPE e [<!ENTITY %s "">]><e/>' % c)]
+    if not cands:
+        raise RuntimeError("no name character that parser/dtd.py accepts and expat rejects")
+    layouts = ['<!ENTITY\n%s %s>', '<!ENTITY\n\n %s\n %s>', '<!-- c\n d -->\n<!ENTITY %s %s>',
+               '<!-- c -->\n<!ENTITY\t%s\n%s\n>', '<!ENTITY %s %s>']
+    for bad in cands:
+        for tail in ("", "a", bad):
+            key = bad + tail
+            for lay in layouts:
+                for empty in ('""', "''"):
+                    for rval in ("", "x", "&" + key + ";"):
+                        rtext = '<!ENTITY %s "%s">\n<!ENTITY other "y">\n' % (key, rval)
+                        ltext = lay % (key, empty) + "\n"
+                        rents, lents = parse_dtd(rtext), parse_dtd(ltext)
+                        if len(lents) != 1 or lents[0].key != key or lents[0].raw_val != "":
+                            raise RuntimeError("empty-value .dtd did not parse into its entity: " + repr(ltext))
+                        checker = get_checker()
+                        if rng.random() < 0.8:
+                            checker.set_reference(rents)
+                        info = {"ref_file": rtext, "l10n_file": ltext, "key": key,
+                                "set_reference": checker.reference is not None}
+                        res, raw = b.add(info, checker, rents[0], lents[0])
+                        if raw is not None:
+                            errs = [(p_, c_) for s_, p_, m_, c_ in raw if s_ == "error"]
+                            # past the value only when the first document (which declares the names the
+                            # reference uses, on line 1) is accepted and the declaration has a line feed
+                            past = "\n" in ltext.strip() and not rval.startswith("&")
+                            if len(errs) != 1 or errs[0][1] != "xmlparse" or \
+                                    (past and errs[0][0] != (0, 0)) or (not past and errs[0][0][0] != 0):
+                                chk.fail("empty-value-error", info, [list(map(str, i)) for i in raw])
+                        chk.hist("empty_value_layout", layouts.index(lay))
+    chk.notes.append(f"DTD-CHECK-empty: {b.n} empty localized values with a key expat rejects "
+                     f"({len(cands)} characters x 3 key shapes x {len(layouts)} layouts x 2 quotes x 3 reference values)")
+    b.finish()
+    all_docs.update(b.docs)
 
     # ---- DTD-CHECK-android -----------------------------------------------------------------------
     b = Batch(chk, "DTD-CHECK-android", model)
@@ -1044,7 +1095,7 @@ def replay(chk, path):
             if c.get("set_reference", True):
                 checker.set_reference(rents)
             key = c.get("key", lents[0].key)
-            r = [e for e in rents if e.key == key][-1]
+            r = ([e for e in rents if e.key == key] or list(rents))[-1]
             l = [e for e in lents if e.key == key][-1]
         elif "ref" in c and "l10n" in c:
             rents = parse_dtd(dtd_entity("k", c["ref"], '"'))
@@ -1067,6 +1118,8 @@ def replay(chk, path):
             rc |= bool(errs)
         elif sig.startswith("missed:"):
             rc |= not errs
+        elif sig.startswith("check-raises"):
+            rc |= isinstance(got, str)
         elif sig.startswith("css-junk") or sig == "css-unparseable-not-error":
             rc |= isinstance(got, str) or \
                 [(i[0], i[2]) for i in got if i[3] == "css"] != [("error", "reference is a CSS spec")]
